@@ -44,13 +44,13 @@ def _java(args, env=None, timeout=900, cwd=SPEC_DIR, heap="4g", extra_java=()):
     e.pop("JAVA_TOOL_OPTIONS", None)
     if env:
         e.update(env)
-    cmd = ["java", "-XX:+UseParallelGC", f"-Xmx{heap}", *extra_java, "-cp", JAR, "tlc2.TLC", *args]
+    cmd = ["java", "-XX:+UseParallelGC", "-Xss64m", f"-Xmx{heap}", *extra_java, "-cp", JAR, "tlc2.TLC", *args]
     t0 = time.time()
     try:
         p = subprocess.run(cmd, cwd=cwd, env=e, capture_output=True, text=True, timeout=timeout)
     except subprocess.TimeoutExpired as ex:
         raise MachineryError(f"TLC timed out after {timeout}s: {' '.join(args)}") from ex
-    return p.returncode, p.stdout + p.stderr, time.time() - t0, " ".join(cmd[5:])
+    return p.returncode, p.stdout + p.stderr, time.time() - t0, " ".join(cmd[6:])
 
 
 _GEN = re.compile(r"(\d+) states generated, (\d+) distinct states found")
